@@ -253,7 +253,7 @@ Fixpoint update_loops (pi : Q) (loops : list loopin) (corr_prev : nat -> Q) : li
       if l_user L then l_phis L :: update_loops pi rest corr_prev
       else
         let corr := corr_of (l_offset L) (l_delay L) in
-        mapi_from 0 (fun j phi => fix_phase pi (- pi / 2) (pi / 2) (phi + corr j - corr_prev j)) (l_phis L)
+        mapi_from 0 (fun j phi => fix_phase pi (- (1 # 2) * pi) ((1 # 2) * pi) (phi + corr j - corr_prev j)) (l_phis L)
         :: update_loops pi rest corr
   end.
 
